@@ -93,6 +93,18 @@ func (w *world) opTSS(op kernel.Op) {
 		proof = []byte(signer.Acc.String())
 	}
 	ph := clienttypes.NewHeight(0, uint64(1+kernel.Mod(op.Arg(4), 9)))
+	if op.Arg(1) >= 4 {
+		// an update of the TSS client (same TSS address, other key material): only the TSS account, and only
+		// while governance has it registered as relayer for that chain
+		hdr := &tsstypes.Header{TssAddress: w.tss.Acc.String(), Pubkey: []byte{9, byte(op.Arg(4))}, PartPubkeys: [][]byte{{4}, {5}}, Threshold: 2}
+		msg, err := clienttypes.NewMsgUpdateClient(name, hdr, signer.Acc)
+		if err != nil {
+			return
+		}
+		c.mempool = append(c.mempool, &intent{kind: "tssupdate", signer: signer, msgs: []sdk.Msg{msg},
+			tss: &tssInfo{what: "update", signer: skind}, desc: fmt.Sprintf("tss client update by %s", skind)})
+		return
+	}
 	switch kernel.Mod(op.Arg(1), 4) {
 	case 0:
 		// a user sends native coin to the TSS chain
@@ -207,6 +219,19 @@ func (w *world) afterTSS(c *xchain, in *intent, out *txOutcome) {
 		}
 		w.checkCounters(c)
 		w.checkDelta(c, "tss.recv", exp{})
+	case "update":
+		registered := c.registry[w.tss.Acc.String()][name] != ""
+		if !out.ok {
+			w.rec.Probe("tss.update_rejected." + t.signer)
+			return
+		}
+		w.rec.SetNontrivial()
+		w.rec.Probe("tss.update_ok")
+		if t.signer != "tss" {
+			w.rec.Violate("C06", "tss_update_by_other_account", t.signer, "the TSS client was updated by %s, who is not the TSS account", t.signer)
+		} else if !registered {
+			w.rec.Violate("C06", "unauthorised_update", "tss_account_not_registered_for_chain", "the TSS client was updated by the TSS account although governance has not registered it as relayer for that chain")
+		}
 	case "ack":
 		if !out.ok {
 			w.rec.Probe("tss.ack_rejected." + t.signer)
